@@ -559,6 +559,10 @@ int main(int argc, char** argv)
     double scale = argval<double>(kv, "scale", 1.0);
     int dets = argval<int>(kv, "dets", 1);  // callbacks with detector maps
     int diag = argval<int>(kv, "diag", 1);  // ActionDiagnostic + StepDiagnostic
+    int ptype = argval<int>(kv, "ptype", -1);  // primary type (-1: random gamma/e-/e+)
+    double emin = argval<double>(kv, "emin", 0.3);
+    int axial = argval<int>(kv, "axial", 0);  // primaries start at the origin along a coordinate axis
+    double fixedstep = argval<double>(kv, "fixedstep", 0.0);  // PhysicsParamsOptions::fixed_step_limiter [cm]
     int killat = argval<int>(kv, "killat", 0);  // call Stepper::kill_active() after k iterations of each event
     std::string script_path = argval<std::string>(kv, "script", "");  // scripted physics (replay of a TLC behaviour)
     verif::Script script;
@@ -605,15 +609,21 @@ int main(int argc, char** argv)
         for (int k = 0; k < nprims; ++k)
         {
             Primary p;
-            int pt = int(rng() % 3);
+            int pt = ptype >= 0 ? ptype : int(rng() % 3);
             p.particle_id = ParticleId(pt);
-            double E = 0.3 * std::pow(emax / 0.3, u01(rng));
+            double E = emin * std::pow(emax / emin, u01(rng));
             p.energy = units::MevEnergy{E};
             double r = (rng() % 4 == 0) ? 0.0 : 4.5;
             p.position = {r * (2 * u01(rng) - 1), r * (2 * u01(rng) - 1), r * (2 * u01(rng) - 1)};
             double cz = 2 * u01(rng) - 1, ph = 2 * 3.14159265358979323846 * u01(rng);
             double sz = std::sqrt(1 - cz * cz);
             p.direction = make_unit_vector(Real3{sz * std::cos(ph), sz * std::sin(ph), cz});
+            if (axial)
+            {
+                p.position = {0, 0, 0};
+                p.direction = {0, 0, 0};
+                p.direction[(e + k) % 3] = ((e + k) % 2 == 0) ? 1.0 : -1.0;
+            }
             p.time = 0;
             p.event_id = EventId(e);
             primaries[e].push_back(p);
@@ -643,6 +653,7 @@ int main(int argc, char** argv)
     po.table_scale = scale;
     po.field_tesla = argval<double>(kv, "field", 0.0);
     po.msc = argval<int>(kv, "msc", 0) != 0;
+    po.fixed_step = fixedstep;
     if (po.field_tesla != 0)
         sh.chord_tol = FieldDriverOptions{}.delta_intersection * 1.001;
     if (!script_path.empty())
